@@ -53,7 +53,7 @@ var burstBytes = []string{"a", "b", "c", "d", "e", "f", "g", "1", "-", "."}
 // regexp rules: one character class under a quantifier, no braces.
 var rulesWitness = []string{`\d+`, `\w+`, `[^/]+`, `[x-z7-9]+`, `\d*`}
 var rulesExtra = []string{`[ab]+`, `[a-b1][a-b1]`, `[a-c]*`, `[0-9]+`}
-var rulesAlt = []string{`img|doc`, `a|b1`, `x|yz|7`}
+var rulesAlt = []string{`img|doc`, `a|b1`, `x|yz|7`, `a|ab`, `\d+?`} // incl. an alternative that is a prefix of a later one, and a lazy quantifier
 
 // classAccepts: does the class of the (vetted) rule accept byte c?
 func classAccepts(rule string, c byte) bool {
